@@ -1,6 +1,7 @@
 import DaliVerif.Model.Decode
 import DaliVerif.Gen.Commands
 import DaliVerif.Spec.AddressSpec
+import DaliVerif.Spec.EventSpec
 import DaliVerif.Drivers.Proto
 /-!
 Line protocol for the address / instance codec and the command codec.
@@ -64,7 +65,55 @@ def fmtFrameRes (r : PyRes Frame) : String := fmtRes (fun f => s!"{f.bits} {f.da
 
 def us (s : String) : String := s.replace " " "_"
 
+def fmtOpt (o : Option Nat) : String := match o with | some n => toString n | none => "-"
+
+def fmtMeaning : Spec.EventMeaning → String
+  | .pushbutton n => s!"push:{n}"
+  | .occupancy a b c d => s!"occ:{a.toNat},{b.toNat},{c.toNat},{d.toNat}"
+  | .illuminance v => s!"light:{v}"
+  | .unknown x => s!"unk:{x}"
+
+def fmtObs : Option Spec.EventObs → String
+  | none => "none"
+  | some o =>
+      let it := match o.instanceType with | some t => toString t | none => "-"
+      s!"sa={fmtOpt o.shortAddress} in={fmtOpt o.instanceNumber} dg={fmtOpt o.deviceGroup} ig={fmtOpt o.instanceGroup} it={it} m={fmtMeaning o.meaning}"
+
+/-- `map a:sa:inum:type,q:sa:inum,…` : run add_type / get_type operations -/
+def runMapOps (ops : List String) : Option String := do
+  let mut m : InstMap := []
+  let mut out : List String := []
+  for op in ops do
+    match op.splitOn ":" with
+    | ["a", a, b, c] =>
+        let a ← parseNat? a; let b ← parseNat? b; let c ← parseInt? c
+        m := m.addType a b c
+    | ["q", a, b] =>
+        let a ← parseNat? a; let b ← parseNat? b
+        out := out ++ [match m.getType a b with | some t => toString t | none => "none"]
+    | _ => none
+  pure (",".intercalate out)
+
 def handle : List String → String
+  | ["obs", data, dt, m] =>
+      match parseNat? data, parseNat? dt, parseMap m with
+      | some data, some dt, some m => fmtObs (Spec.observe (decode Gen.tables 24 data dt m))
+      | _, _, _ => "bad-op"
+  | ["spec", "obs", data, _, m] =>
+      match parseNat? data, parseMap m with
+      | some data, some m => fmtObs (Spec.expectedObs data m)
+      | _, _ => "bad-op"
+  | ["retry", data, m] =>
+      match parseNat? data, parseMap m with
+      | some data, some (some m) =>
+          match retryDecode Gen.tables (decode Gen.tables 24 data 0 none) m with
+          | some c => s!"{className c}|{fmtFrameRes (encode c)}|{us (render c)}"
+          | none => "none"
+      | _, _ => "bad-op"
+  | ["map", ops] =>
+      match runMapOps (ops.splitOn ",") with
+      | some r => "ok " ++ r
+      | none => "bad-op"
   | ["dec", bits, data, dt, m] =>
       match parseNat? bits, parseNat? data, parseNat? dt, parseMap m with
       | some bits, some data, some dt, some m =>
